@@ -173,7 +173,7 @@ type SignedBase struct {
 }
 
 func genSignedBase(t *rapid.T) SignedBase {
-	m := genDebModel(t)
+	m := genSmallDebModel(t)
 	m.CtlCodec = rapid.SampledFrom([]string{"", "gz"}).Draw(t, "cc")
 	m.DataCodec = rapid.SampledFrom([]string{"", "gz"}).Draw(t, "dc")
 	if len(m.DataFiles) > 3 {
